@@ -1,6 +1,7 @@
 import T4V.Proofs.PostClosed
 import T4V.Proofs.CompileClosed
 import T4V.Proofs.Optimise
+import T4V.Proofs.WriteRead
 /-!
 # Property C08 — structural validity of the written file (the clauses that are logic of the model)
 -/
@@ -55,5 +56,37 @@ theorem closed_end_to_end (env : CEnv) (fuel next0 : Nat) (keys : List Nat) (st'
   have := postProcess_closed dedup surfs u st'.vols hcl hkn
   intro p hp op ids ho k hk
   exact this p hp k (by simp [idsOf, ho, hk])
+
+/-! ### `VOLU` lines: the reader inverts the writer (`VolumeT4.__str__`, `Spec.T4.readBody`) -/
+open T4V.WR in
+/-- the words of `VolumeT4.__str__` followed by `ENDV` are: `EQUA`, the PLUS section, the MINUS section, the operator
+section, `FICTIVE`, `ENDV` -/
+theorem volWords_sections (P M : List Nat) (ops : Option (OpKind × List Nat)) (fict : Bool) :
+    volWords P M (ops.map fun x => (opName x.1, x.2)) fict ++ ["ENDV"]
+      = "EQUA" :: (sect "PLUS" P ++ (sect "MINUS" M ++ (opWords ops ++ tailE fict))) := by
+  cases ops with
+  | none => simp [volWords, sect, opWords, tailE]
+  | some x => obtain ⟨o, ids⟩ := x; simp [volWords, sect, opWords, tailE]
+
+open T4V.WR in
+/-- **every `VOLU` line the writer can produce is read back exactly, without a single complaint**: for all PLUS and
+MINUS sets (in any enumeration order), every operator with any operand list and either value of the FICTIVE flag,
+the reader applied to the words that follow `EQUA` finds the sorted PLUS and MINUS lists, the operator with its
+operands in order, the flag, the closing `ENDV`, and reports no error — so the declared counts equal the number of
+ids that follow, every id is a natural number, and nothing follows `ENDV`. -/
+theorem volume_line_roundtrip (ctx : String) (P M : List Nat) (ops : Option (OpKind × List Nat)) (fict : Bool)
+    (fuel : Nat) (hf : 5 ≤ fuel) :
+    readBody ctx fuel ((volWords P M (ops.map fun x => (opName x.1, x.2)) fict ++ ["ENDV"]).tail) {}
+      = { pluses := P.mergeSort natLe, minuses := M.mergeSort natLe, op := ops, fictive := fict, ended := true,
+          errs := [] } := by
+  obtain ⟨f, rfl⟩ : ∃ f, fuel = f + 5 := ⟨fuel - 5, by omega⟩
+  rw [volWords_sections, List.tail_cons, stageP ctx P M ops fict f {} rfl]
+  simp
+
+/-- what is read back has the written sets: same members, same multiplicities -/
+theorem volume_line_sets (P : List Nat) : (P.mergeSort natLe).Perm P := List.mergeSort_perm P _
+
+/-- the fuel the file reader uses (number of words + 5) is enough -/
+theorem reader_fuel_enough (ws : List String) : 5 ≤ ws.length + 5 := by omega
 
 end T4V.C08
